@@ -90,8 +90,20 @@ class SpecFunc:
     def __init__(self, name, params, body, doc=""):
         self.name = name
         self.params = []
-        for p in [x.strip() for x in params.split(",") if x.strip()]:
-            n, t = p.split(":")
+        parts, depth, cur = [], 0, ""
+        for ch in params:
+            if ch == "[":
+                depth += 1
+            elif ch == "]":
+                depth -= 1
+            if ch == "," and depth == 0:
+                parts.append(cur)
+                cur = ""
+            else:
+                cur += ch
+        parts.append(cur)
+        for p in [x.strip() for x in parts if x.strip()]:
+            n, t = p.split(":", 1)
             self.params.append((n.strip(), parse_type(t.strip())))
         self.body = ast.parse(body.strip(), mode="eval").body
         self.text = body
